@@ -813,6 +813,84 @@ func v35RunMsg(t testing.TB, s *v35Side, mc *v35MsgCase, seed uint64) (o v35MsgO
 	return o
 }
 
+// v35AltFields builds a syntactically valid QPACK field section from a pool of fields that steer
+// the message handling (content-length, expect, trailer, te, connection-specific fields, odd
+// pseudo-header sets).
+func v35AltFields(rng *rand.Rand, role string) []byte {
+	b := qpackref.AppendPrefix(nil, 0, false, 0, 0)
+	lit := func(n, v string) {
+		b = qpackref.AppendLiteral(b, rng.IntN(4) == 0, n, rng.IntN(2) == 0, v, rng.IntN(2) == 0, 0, 0)
+	}
+	pick := func(xs ...string) string { return xs[rng.IntN(len(xs))] }
+	if role == "client" {
+		if rng.IntN(8) != 0 {
+			lit(":status", pick("200", "200", "204", "304", "100", "103", "101", "404", "500", "99", "1000", "abc", ""))
+		}
+	} else {
+		if rng.IntN(10) != 0 {
+			lit(":method", pick("GET", "POST", "POST", "HEAD", "CONNECT", "OPTIONS", "PUT", ""))
+		}
+		if rng.IntN(10) != 0 {
+			lit(":scheme", pick("https", "https", "http", "ftp", ""))
+		}
+		if rng.IntN(10) != 0 {
+			lit(":path", pick("/", "/a?b=c", "*", "", "no-slash", "/%zz"))
+		}
+		if rng.IntN(10) != 0 {
+			lit(":authority", pick("example.com", "example.com:443", "", "[::1]", "a b"))
+		}
+		if rng.IntN(12) == 0 {
+			lit(":protocol", "websocket")
+		}
+	}
+	// the fields that select the body handling, in every combination
+	switch rng.IntN(4) {
+	case 0:
+		lit("content-length", "0")
+	case 1:
+		lit("content-length", pick("3", "10"))
+	}
+	if rng.IntN(2) == 0 {
+		lit("expect", "100-continue")
+	}
+	if rng.IntN(3) == 0 {
+		lit("trailer", "x-trailer")
+	}
+	for i, n := 0, rng.IntN(6); i < n; i++ {
+		switch rng.IntN(14) {
+		case 0:
+			lit("content-length", pick("0", "0", "1", "3", "10", "100000", "-1", "x", "18446744073709551616", "3, 3"))
+		case 1:
+			lit("expect", pick("100-continue", "100-continue", "100-Continue", "other"))
+		case 2:
+			lit("trailer", pick("x-trailer", "x-trailer, x-other", "content-length", ""))
+		case 3:
+			lit("te", pick("trailers", "gzip"))
+		case 4:
+			lit(pick("connection", "transfer-encoding", "upgrade", "keep-alive", "proxy-connection"), pick("close", "chunked", "h2c", "x"))
+		case 5:
+			lit("host", pick("example.com", "other.example", ""))
+		case 6:
+			lit("cookie", pick("a=b", "c=d; e=f", ""))
+		case 7:
+			lit(pick("X-Upper", "x y", "", "x\x00y", ":late-pseudo"), "v")
+		case 8:
+			lit("x-value", pick("a\r\nb", "\x00", " lead", "trail ", strings.Repeat("v", 5000)))
+		case 9:
+			lit("content-type", pick("text/plain", "application/octet-stream"))
+		case 10:
+			lit("content-encoding", pick("gzip", "identity"))
+		case 11:
+			lit("priority", pick("u=1, i", "u=9", "??"))
+		case 12:
+			lit("accept-encoding", "gzip")
+		default:
+			lit("x-"+pick("a", "b", "c"), pick("1", "2", ""))
+		}
+	}
+	return b
+}
+
 // v35GenMsg makes a request (server role) or response (client role) stream.
 func v35GenMsg(rng *rand.Rand, role string) *v35MsgCase {
 	mc := &v35MsgCase{Role: role, Kind: "frames"}
@@ -840,6 +918,13 @@ func v35GenMsg(rng *rand.Rand, role string) *v35MsgCase {
 		p := append(append([]byte{}, hdr...), 0x27)
 		w = v35AppendFrame(w, rng, 0x1, uint64(len(p)), p)
 		mc.Kind = "headers-int-overrun"
+	case 3, 4, 5:
+		// Another well-formed field section: no prediction is made for the message it starts
+		// (the oracle compares the HEADERS payload with the fixed one), the handlers must
+		// simply survive whatever combination of fields a peer chooses.
+		alt := v35AltFields(rng, role)
+		w = v35AppendFrame(w, rng, 0x1, uint64(len(alt)), alt)
+		mc.Kind = "other-fields"
 	default:
 		w = v35AppendFrame(w, rng, 0x1, uint64(len(hdr)), hdr)
 	}
